@@ -17,6 +17,8 @@ MANIFEST_ENTRY = {
 
 def tasks(tier, seed):
     return [
+        func("bt.backtest.Backtest.run"),
+        func("bt.core.StrategyBase.flatten"),
         *UPDATE_ALL,
         func("bt.core.SecurityBase.update"),
         func("bt.core.FixedIncomeSecurity.update"),
